@@ -46,6 +46,20 @@ def gen(rng, tier):
         for k in ([1, 2, 7, 8, 9, 12, 300, 309, 9000] if tier == 'thorough' else [1, 8, 9, 300, 9004]):
             yield Case(mk(stack, small, [], [], cut=k), True, 'cut-' + stack)
             yield Case(mk(stack, small, [], [['give', 3]], cut=k), True, 'cut-' + stack)
+    # every serialized record size around one byte / two bytes of length (240..270 and 65520..65545 payload bytes, i.e.
+    # serialized sizes across 255 / 256 and 65535 / 65536): formats that reserve a marker value for the length collide here
+    for stack in stacks:
+        yield Case(mk(stack, [(n0, n0 % 251) for n0 in range(236, 272)], [], []), False, 'sizes-around-255-' + stack)
+        for base in ([65500, 65530] if tier == 'quick' else [65500, 65510, 65520, 65530, 65536]):
+            yield Case(mk(stack, [(n0, n0 % 251) for n0 in range(base, base + 10)], [], []), False, 'sizes-around-65535-' + stack)
+    # several records above 1 MiB in one chunk (equal and different sizes, different contents), no faults and one short read
+    M = 1 << 20
+    for k in range(3 if tier == 'quick' else 12):
+        stack = stacks[k % 3]
+        a0 = M + rng.choice([1, 8, 9, 4096, 70000])
+        items = [(a0, 10), (rng.choice([3, 0, 8192]), 5), (a0, 20), (a0 + rng.choice([0, 1, 7]), 30)]
+        rng.shuffle(items)
+        yield Case(mk(stack, items, [], [] if k % 2 == 0 else [['give', 100000], ['give', 5]]), k % 2 == 1, 'several-above-1MiB-' + stack)
     n = 500 if tier == 'quick' else 12000
     for _ in range(n):
         stack = rng.choice(stacks)
@@ -85,9 +99,26 @@ def agree(case, impl, model):
 
 def oracle_line(case, impl, model, bad):
     """wrapped stacks: the extracted chunk_oracle judges the observed outcome"""
-    if 'oracle-only' not in model:
-        return None
     c = sx.parse(case)
+    if 'oracle-only' not in model:
+        # bare / BufWriter stacks are compared EXACTLY with the model first (stored bytes, item sequence).  That also fixes
+        # the sequence of write / read calls, which the property does not: a rewrite that issues its calls differently
+        # (header and payload in one write_all, another buffer size) meets the faults of a plan at other places and may
+        # legitimately end differently.  So a disagreement is not yet a violation: the extracted outcome oracle decides
+        # on what was observed (dump result, records read back, whether the plan held a hard fault).
+        if not bad or 'ORACLE-FAIL' in impl or 'panic' in impl or 'abort' in impl:
+            return None
+        try:
+            o = sx.parse(impl)
+            d = [x for x in o if isinstance(x, list) and x[0] == 'dump'][0][1]
+            got = [x for x in o if isinstance(x, list) and x[0] == 'items']
+            got = ['got'] + (got[0][1:] if got else [])
+        except Exception:
+            return None
+        # storage that lost its tail counts as a hard fault: a reader that reports an error where the pinned code ends
+        # silently (cut inside a length header) is accepted, one that ends silently where an error is due is not
+        hard = any(x in ('err', 'zero') for x in c[3][1:] + c[4][1:]) or len(c) > 5
+        return sx.dump(['chunkchk', c[2], 1 if d == 'ok' else 0, got, 1 if hard else 0])
     try:
         o = sx.parse(impl)
         d = [x for x in o if isinstance(x, list) and x[0] == 'dump'][0][1]
